@@ -72,12 +72,17 @@ Proof.
   apply N.mod_small. exact Hx.
 Qed.
 
+Lemma fnv_step_mod h b : fnv_step h b = (N.lxor h b * fnv_prime) mod two64.
+Proof.
+  unfold fnv_step. change mask64 with (N.ones 64). rewrite N.land_ones, N.mul_comm. reflexivity.
+Qed.
+
 Lemma fnv_step_lt h b : fnv_step h b < two64.
-Proof. unfold fnv_step. apply N.mod_lt. exact two64_nz. Qed.
+Proof. rewrite fnv_step_mod. apply N.mod_lt. exact two64_nz. Qed.
 
 Lemma fnv_unstep_step h b : h < two64 -> b < two64 -> fnv_unstep (fnv_step h b) b = h.
 Proof.
-  intros Hh Hb. unfold fnv_unstep, fnv_step.
+  intros Hh Hb. unfold fnv_unstep. rewrite fnv_step_mod.
   rewrite mulp_unmul by (apply lxor_lt64; assumption). apply lxor_cancel_r.
 Qed.
 
@@ -88,7 +93,7 @@ Qed.
 
 Lemma fnv_step_unstep h' b : h' < two64 -> b < two64 -> fnv_step (fnv_unstep h' b) b = h'.
 Proof.
-  intros Hh Hb. unfold fnv_unstep, fnv_step. rewrite lxor_cancel_r.
+  intros Hh Hb. rewrite fnv_step_mod. unfold fnv_unstep. rewrite lxor_cancel_r.
   apply mul_unmulp. exact Hh.
 Qed.
 
@@ -117,7 +122,7 @@ Proof. intros H1 H2 Hb. apply (proj1 (fnv_step_bijective b Hb)); assumption. Qed
 Lemma fnv_step_inj_byte h b1 b2 :
   h < two64 -> b1 < two64 -> b2 < two64 -> fnv_step h b1 = fnv_step h b2 -> b1 = b2.
 Proof.
-  intros Hh H1 H2 E. unfold fnv_step in E.
+  intros Hh H1 H2 E. rewrite !fnv_step_mod in E.
   apply mulp_inj in E; try (apply lxor_lt64; assumption).
   apply lxor_inj_l in E. exact E.
 Qed.
